@@ -516,7 +516,7 @@ impl Sim {
                     .collect()
             };
             let post = if r_is_panic(&crash) {
-                J::Null
+                json!({"crashed": true})
             } else {
                 self.worker_snapshot(w)
             };
